@@ -121,10 +121,12 @@ fn build_area(rng: &mut Rng, sizes: &[u32], area: usize, loaded: bool) -> Vec<u8
         let typ = if forced_end {
             0
         } else {
-            match rng.below(6) {
+            match rng.below(7) {
                 0 => 3,
                 1 => 0,
                 2 => rng.u32(),
+                // types that share their low 16 bits (or low byte) with the module / end type
+                3 => *rng.pick(&[0x0001_0003u32, 0x8001_0003, 0x0003_0000, 0x0000_0103, 0x0001_0000, 0xffff_0003, 0x0300_0000]),
                 _ => rng.below(30) as u32,
             }
         };
